@@ -4,7 +4,7 @@
 From Coq Require Import QArith Qcanon List Arith.
 From Verif.lib Require Import Bsp.
 From Verif.C02 Require Import Proofs.
-From Verif.C05 Require Import Model Proofs.
+From Verif.C05 Require Import Model Proofs Hier HierEx.
 Import ListNotations.
 Open Scope Qc_scope.
 
@@ -106,17 +106,156 @@ Theorem open_kv_wellformed : forall kv p, open_kv kv p = true -> kv_ok kv p.
 Proof. exact open_kv_ok. Qed.
 Print Assumptions open_kv_wellformed.
 
-(* NOT PROVED: levelwise_eval_eq_fine
-     forall HSpace state S reachable by refinement (C04 invariant), both bases, every coefficient
-     vector c and point x:  sum_l f_l(x) = sum_J (represent_fine S * c)_J * B^L_J(x)   (values,
-     gradients, Hessians), f_l = coeffs_to_levelwise_funcs.
-   What is proved instead: the 1-D, two-space core it is built from (transfer_compose,
-   transfer_coefficients on top of prolongation_preserves).  Missing: the model of the HSpace
-   state (coq/C04/Model.v did not exist when this was written), Kronecker products for dim > 1,
-   truncation.
-   NOT PROVED: vh_prolongators_hb, vh_prolongators_thb, prolongate_to_preserves, boundary_restriction
-     (statements in DESIGN.md, C05).  They are covered by the correspondence run only:
-     the function-preservation predicate is evaluated exactly (Fractions, Cox-de Boor oracle
-     written independently in harness/props/c05.py) on the implementation's matrices.
-     On the unchanged tree that evaluation REFUTES vh_prolongators_thb for >= 3 levels and
-     prolongate_to_preserves for finite disparity (replays in evidence/replay). *)
+(* ======================= hierarchical conjuncts (coq/C05/Hier.v) =======================
+   Setting: levels k = 0..Lmax; n k = number of tensor-product functions of level k, B k i = the
+   i-th of them (raveled C-order index), P k = tp_prolongation(k, kron=True).
+   two_scale_hyp n B P Lmax : B k i = sum_j P k j i * B (k+1) j for k < Lmax.
+   index_hyp n P act deact  : act k ++ deact k duplicate-free, in range, and the children of a
+                              deactivated function lie in act (k+1) ++ deact (k+1) (consequence of the
+                              C04 invariant funcs_inv + locality of the two-scale relation; explicit
+                              hypothesis here). *)
+
+(* Kronecker lifting, any number of axes: if every 1-D matrix preserves its basis functions, the
+   Kronecker product preserves the tensor-product functions at every point *)
+Theorem tp_prolongation_preserves : forall Ms coarse fine,
+  axes_preserve Ms coarse fine ->
+  forall I xs, (I < tp_dofs coarse)%nat ->
+    TPN coarse I xs = bigsum (tp_dofs fine) (fun J => kron Ms fine coarse J I * TPN fine J xs).
+Proof. exact tp_preserves_l. Qed.
+Print Assumptions tp_prolongation_preserves.
+
+(* ... and the hypothesis of that lifting is discharged axis by axis by prolongation_preserves *)
+Theorem tp_axes_from_prolongation : forall kv p us Ms rc rf,
+  kv_ok kv p -> Forall (in_dom kv) us -> axes_preserve Ms rc rf ->
+  axes_preserve (get2 (prolongation_spec kv p us) :: Ms) ((kv, p) :: rc) ((refine_kv kv p us, p) :: rf).
+Proof. exact axes_preserve_prolongation. Qed.
+Print Assumptions tp_axes_from_prolongation.
+
+(* hence the tensor-product B-spline bases of the levels of a hierarchical space satisfy the
+   two-scale relation with the Kronecker products of the 1-D prolongations (any dimension) *)
+Theorem tp_two_scale : forall (axes : nat -> list axisQ) (Ms : nat -> list (nat -> nat -> Qc)) Lmax,
+  (forall k, (k < Lmax)%nat -> axes_preserve (Ms k) (axes k) (axes (S k))) ->
+  two_scale_hyp (fun k => tp_dofs (axes k)) (fun k i xs => TPN (axes k) i xs)
+                (fun k => kron (Ms k) (axes (S k)) (axes k)) Lmax.
+Proof. exact tp_two_scale_l. Qed.
+Print Assumptions tp_two_scale.
+
+(* represent_fine (HB), any number of refinement steps: column i of the accumulated product
+   (RF = the loop of hierarchical.py:1102-1143) represents function i of level T-m on level T *)
+Theorem represent_fine_hb : forall (X : Type) n (B : nat -> nat -> X -> Qc) P Lmax,
+  two_scale_hyp n B P Lmax ->
+  forall T m i x, (T <= Lmax)%nat -> (m <= T)%nat -> (i < n (T - m))%nat ->
+    B (T - m)%nat i x = bigsum (n T) (fun J => RF n P noZ T m J i * B T J x).
+Proof. exact @represent_fine_hb_l. Qed.
+Print Assumptions represent_fine_hb.
+
+(* level-wise evaluation = evaluation of the finest-level tensor-product representation (HB, any
+   number of levels, any coefficient arrays): sum_l sum_i u_l[i] B_l,i(x) = sum_J (represent_fine u)_J B_T,J(x).
+   Gradients and Hessians: B is arbitrary, so the statement applies verbatim to any family of
+   derivatives that satisfies the same two-scale relation (differentiation is linear). *)
+Theorem levelwise_eval_eq_fine : forall (X : Type) n (B : nat -> nat -> X -> Qc) P Lmax,
+  two_scale_hyp n B P Lmax ->
+  forall T u x, (T <= Lmax)%nat ->
+    levelwise X n B T u x = bigsum (n T) (fun J => fine_coeff n P noZ T u J * B T J x).
+Proof. exact @levelwise_l. Qed.
+Print Assumptions levelwise_eval_eq_fine.
+
+(* THB, one refinement step (two levels carrying coefficients), any dimension: converting THB
+   coefficients with thb_to_hb = truncate_one_level and evaluating level-wise gives the finest-level
+   function whose coefficients are represent_fine(truncate=True) * u (rows act(T) of the prolongator
+   zeroed) *)
+Theorem levelwise_eval_eq_fine_thb_partial : forall (X : Type) n (B : nat -> nat -> X -> Qc) P Lmax,
+  two_scale_hyp n B P Lmax ->
+  forall T actT u x, (1 <= T <= Lmax)%nat ->
+    (forall l i, (l < T - 1)%nat -> u l i = 0) -> (forall j, actT j = false -> u T j = 0) ->
+    levelwise X n B T (thb_to_hb2 n P T actT u) x
+    = bigsum (n T) (fun J => fine_coeff n P (fun lv j => Nat.eqb lv T && actT j) T u J * B T J x).
+Proof. exact @levelwise_thb2_l. Qed.
+Print Assumptions levelwise_eval_eq_fine_thb_partial.
+(* NOT PROVED: levelwise_eval_eq_fine_thb for more than two coefficient-carrying levels
+   (thb_to_hb = T_{L-2} ... T_0 against the level-by-level zeroing of represent_fine); missing: the
+   induction over levels showing that zeroing only the ACTIVE rows level by level composes to the
+   product of the truncate_one_level matrices. *)
+
+(* virtual_hierarchy_prolongators, HB: every function of virtual level k (the active functions of
+   levels <= k and the deactivated ones of level k) is reproduced on virtual level k+1 by its column *)
+Theorem vh_prolongators_hb : forall (X : Type) n (B : nat -> nat -> X -> Qc) P Lmax act deact,
+  two_scale_hyp n B P Lmax -> index_hyp n P act deact ->
+  forall k, (k < Lmax)%nat ->
+    lpres dof X (dofsV act deact k) (dofsV act deact (S k)) (fnHB X B) (fnHB X B) (Phb P act deact k).
+Proof. exact @vh_hb_l. Qed.
+Print Assumptions vh_prolongators_hb.
+
+(* ... and composed from any level k over m levels (k = 0, k + m = last level: level-0 tensor-product
+   coefficients to HB coefficients of the identical function) *)
+Theorem vh_prolongators_hb_composed : forall (X : Type) n (B : nat -> nat -> X -> Qc) P Lmax act deact,
+  two_scale_hyp n B P Lmax -> index_hyp n P act deact ->
+  forall m k, (k + m <= Lmax)%nat ->
+    lpres dof X (dofsV act deact k) (dofsV act deact (k + m)) (fnHB X B) (fnHB X B) (Phb_chain P act deact k m).
+Proof. exact @vh_hb_chain_l. Qed.
+Print Assumptions vh_prolongators_hb_composed.
+
+(* THB, REPAIRED composition (fixes/C05-thb-virtual-hierarchy.patch): H2T(k+1) * P_hb[k] * T2H(k)
+   transfers the THB functions, where a THB function is the HB functions combined with a column of
+   thb_to_hb and H2 undoes T2 on virtual level k+1 *)
+Theorem vh_prolongators_thb_repaired : forall (X : Type) n (B : nat -> nat -> X -> Qc) P Lmax,
+  (forall k i x, (k < Lmax)%nat -> (i < n k)%nat ->
+     B k i x = bigsum (n (S k)) (fun j => P k j i * B (S k) j x)) ->
+  forall act deact,
+  (forall k, NoDup (act k ++ deact k)) ->
+  (forall k j, In j (act k ++ deact k) -> (j < n k)%nat) ->
+  (forall k i j, In i (deact k) -> (j < n (S k))%nat -> P k j i <> 0 -> In j (act (S k) ++ deact (S k))) ->
+  forall k (T1 T2 H2 : dof -> dof -> Qc),
+  (k < Lmax)%nat ->
+  (forall r (W : dof -> Qc), In r (dofsV act deact (S k)) ->
+      lsum (dofsV act deact (S k)) (fun a => W a * lsum (dofsV act deact (S k)) (fun r' => T2 r r' * H2 r' a)) = W r) ->
+  lpres dof X (dofsV act deact k) (dofsV act deact (S k))
+        (fun c x => lsum (dofsV act deact k) (fun b => T1 b c * fnHB X B b x))
+        (fun c x => lsum (dofsV act deact (S k)) (fun r => T2 r c * fnHB X B r x))
+        (fun r' c => lsum (dofsV act deact (S k))
+                          (fun a => H2 r' a * lsum (dofsV act deact k) (fun b => Phb P act deact k a b * T1 b c))).
+Proof. exact vh_thb_repaired_l. Qed.
+Print Assumptions vh_prolongators_thb_repaired.
+(* NOT PROVED for the repaired variant: that the product of truncate_one_level(j, inverse=True,
+   virtual=(j = k)) matrices is the inverse of the product of the truncate_one_level(j, virtual=...)
+   matrices (each factor is I -+ A with A*A = 0), i.e. the hypothesis on T2/H2 above, and that the
+   functions so defined are the truncated functions of represent_fine(truncate=True) beyond two
+   levels (levelwise_eval_eq_fine_thb_partial covers two). *)
+
+(* THB, the code as it is (truncate_one_level(k, inverse=True) @ P_hb[k]): refuted on three levels.
+   1-D, p = 2, knots 0,0,0,1,2,3,4,4,4, cells [0,2) refined, then [0,1): the truncated level-0
+   function 2 of virtual level 1 vanishes at x = 1/8, its image under prolongator 1 is 1/128 there. *)
+Theorem vh_prolongators_thb_old_refuted :
+  exists c x, In c (dofsV exact exdeact 1) /\
+    fnTHB Qc exn exB exP exact exdeact 1 c x
+    <> lsum (dofsV exact exdeact 2)
+            (fun r => Pthb_old exn exP exact exdeact 1 r c * fnTHB Qc exn exB exP exact exdeact 2 r x).
+Proof. exact thb_old_refuted_l. Qed.
+Print Assumptions vh_prolongators_thb_old_refuted.
+
+(* prolongate_to, repaired (uncapped) propagation, any disparity: a coarse function that is
+   deactivated in the fine space equals the combination of ACTIVE fine functions produced by pushing
+   its coefficient through the deactivated functions level by level (P_act / P_deact of
+   hierarchical.py:1033-1056), as soon as a level without deactivated functions is reached -- no cap
+   on the number of levels.  act/deact are those of the fine space. *)
+Theorem prolongate_to_replaced_partial : forall (X : Type) n (B : nat -> nat -> X -> Qc) P Lmax,
+  (forall k i x, (k < Lmax)%nat -> (i < n k)%nat ->
+     B k i x = bigsum (n (S k)) (fun j => P k j i * B (S k) j x)) ->
+  forall act deact,
+  (forall k, NoDup (act k ++ deact k)) ->
+  (forall k j, In j (act k ++ deact k) -> (j < n k)%nat) ->
+  (forall k i j, In i (deact k) -> (j < n (S k))%nat -> P k j i <> 0 -> In j (act (S k) ++ deact (S k))) ->
+  forall l i m x, (l + m <= Lmax)%nat -> In i (deact l) -> deact (l + m)%nat = [] ->
+    B l i x = expand_act X B P act deact m l (fun s => if Nat.eqb s i then 1 else 0) x.
+Proof. exact prolongate_to_replaced_l. Qed.
+Print Assumptions prolongate_to_replaced_partial.
+(* NOT PROVED: prolongate_to_preserves at the level of the returned matrix: the canonical-index
+   bookkeeping (np.ix_, _levelwise_to_canonical, the identity block of the common functions) around
+   the propagation proved above; and the link `coarse-active and not fine-active => fine-deactivated`
+   (is_subspace_of + C04 invariant).
+   NOT PROVED: boundary_restriction (function k of the boundary space is the trace of function map[k]);
+   missing: N_{0,p}(a) = 1 and N_{i,p}(a) = 0 (i > 0) at the ends of an open knot vector for the
+   Cox-de Boor reference (right end: closure convention), then the product structure of TPN.
+   Both remain covered by the exact oracle on the implementation (harness/props/c05.py).
+   The hypotheses two_scale_hyp / index_hyp are met by a concrete three-level hierarchy:
+   HierEx.ex_two_scale, ex_idx_ok, ex_children_closed. *)
